@@ -526,7 +526,12 @@ class InventoryWorkingTree(WorkingTree, MutableInventoryTree):
                             else:
                                 message = backup(f)
                         else:
-                            if f in files_to_backup:
+                            # An unversioned path is never deleted without
+                            # force: iter_changes does not report an unknown
+                            # file whose path is still versioned in the basis
+                            # tree (e.g. after 'remove --keep'), so it may be
+                            # missing from files_to_backup.
+                            if f in files_to_backup or (not fid and not force):
                                 message = backup(f)
                             else:
                                 osutils.delete_any(abs_path)
